@@ -219,17 +219,108 @@ theorem mkCmd_eq (verb : String) (arg : Option Bytes) (b : World) :
 def closeF (w : WorldT) (b : World) : Bool :=
   w.ctlSsl && w.base.connected && !b.connected && !w.peerAnswersCloseNotify
 
+/-- the first command write of a plain run (which appended `evs`) in a session whose handshake failed -/
+def brk (w : WorldT) (evs : List Ev) : Option (List Ev × Bytes) :=
+  if w.broken then splitAtFirstCtlWrite evs else none
+
+theorem split_some : ∀ {l : List Ev} {pre : List Ev} {c : Bytes}, splitAtFirstCtlWrite l = some (pre, c) →
+    writes pre = [] ∧ ∃ post, l = pre ++ Ev.ctlWrite c :: post := by
+  intro l
+  induction l with
+  | nil => intro pre c h; simp [splitAtFirstCtlWrite] at h
+  | cons e t ih =>
+    intro pre c h
+    by_cases he : ∃ x, e = Ev.ctlWrite x
+    · obtain ⟨x, rfl⟩ := he
+      simp only [splitAtFirstCtlWrite, Option.some.injEq, Prod.mk.injEq] at h
+      obtain ⟨rfl, rfl⟩ := h
+      exact ⟨rfl, t, rfl⟩
+    · have hs : splitAtFirstCtlWrite (e :: t) =
+          (match splitAtFirstCtlWrite t with | some (pre, b) => some (e :: pre, b) | none => none) := by
+        cases e <;> first | rfl | exact absurd ⟨_, rfl⟩ he
+      rw [hs] at h
+      cases ht : splitAtFirstCtlWrite t with
+      | none => rw [ht] at h; cases h
+      | some x =>
+        obtain ⟨pre', c'⟩ := x
+        rw [ht] at h
+        simp only [Option.some.injEq, Prod.mk.injEq] at h
+        obtain ⟨rfl, rfl⟩ := h
+        obtain ⟨h1, post, h2⟩ := ih ht
+        refine ⟨?_, post, by rw [h2]; rfl⟩
+        have : writes (e :: pre') = writes [e] ++ writes pre' := writes_append [e] pre'
+        rw [this, h1, List.append_nil]
+        cases e <;> first | rfl | exact absurd ⟨_, rfl⟩ he
+
+theorem split_none_iff : ∀ {l : List Ev}, splitAtFirstCtlWrite l = none ↔ writes l = [] := by
+  intro l
+  induction l with
+  | nil => exact ⟨fun _ => rfl, fun _ => rfl⟩
+  | cons e t ih =>
+    by_cases he : ∃ x, e = Ev.ctlWrite x
+    · obtain ⟨x, rfl⟩ := he
+      simp [splitAtFirstCtlWrite, writes]
+    · have hs : splitAtFirstCtlWrite (e :: t) =
+          (match splitAtFirstCtlWrite t with | some (pre, b) => some (e :: pre, b) | none => none) := by
+        cases e <;> first | rfl | exact absurd ⟨_, rfl⟩ he
+      have hw : writes (e :: t) = writes t := by
+        cases e <;> first | rfl | exact absurd ⟨_, rfl⟩ he
+      rw [hs, hw, ← ih]
+      cases splitAtFirstCtlWrite t with
+      | none => simp
+      | some x => simp
+
+theorem brk_none_of_writes {w : WorldT} {evs : List Ev} (h : writes evs = []) : brk w evs = none := by
+  unfold brk
+  split
+  · exact split_none_iff.2 h
+  · rfl
+
+theorem brk_none_of_ok {w : WorldT} (h : w.broken = false) (evs : List Ev) : brk w evs = none := by
+  unfold brk; rw [h]; rfl
+
+theorem brk_some {w : WorldT} {evs pre : List Ev} {c : Bytes} (h : brk w evs = some (pre, c)) :
+    w.broken = true ∧ writes pre = [] ∧ ∃ post, evs = pre ++ Ev.ctlWrite c :: post := by
+  unfold brk at h
+  split at h
+  · rename_i hb; exact ⟨hb, split_some h⟩
+  · cases h
+
+theorem brk_none_writes {w : WorldT} {evs : List Ev} (hb : w.broken = true) (h : brk w evs = none) : writes evs = [] := by
+  unfold brk at h
+  rw [if_pos hb] at h
+  exact split_none_iff.1 h
+
 theorem lift_eq {α} (m : M α) (w : WorldT) :
+    lift m w =
+      match brk w (m { w.base with trace := [] }).2.trace with
+      | some (pre, cmd) =>
+        (Res.throw, { w with trace := w.trace ++ (pre ++ [Ev.ctlWriteFail cmd]).map (EvT.ev w.ctlTls) })
+      | none =>
+      ((if closeF w (m { w.base with trace := [] }).2 then Res.throw else (m { w.base with trace := [] }).1),
+       { w with base := { (m { w.base with trace := [] }).2 with trace := w.base.trace },
+                trace := w.trace ++
+                  (if closeF w (m { w.base with trace := [] }).2 then uptoClose (m { w.base with trace := [] }).2.trace
+                   else (m { w.base with trace := [] }).2.trace).map (EvT.ev w.ctlTls) }) := by
+  unfold lift closeF brk
+  rcases m { w.base with trace := [] } with ⟨r, b⟩
+  dsimp only
+  cases (if w.broken = true then splitAtFirstCtlWrite b.trace else none) with
+  | some x => rfl
+  | none => dsimp only; split <;> rfl
+
+/-- with a completed handshake, or without an SSL layer, `lift` is what it was before the broken-session branch -/
+theorem lift_eq_of_not_broken {α} (m : M α) (w : WorldT) (h : w.ctlTls = true ∨ w.ctlSsl = false) :
     lift m w =
       ((if closeF w (m { w.base with trace := [] }).2 then Res.throw else (m { w.base with trace := [] }).1),
        { w with base := { (m { w.base with trace := [] }).2 with trace := w.base.trace },
                 trace := w.trace ++
                   (if closeF w (m { w.base with trace := [] }).2 then uptoClose (m { w.base with trace := [] }).2.trace
                    else (m { w.base with trace := [] }).2.trace).map (EvT.ev w.ctlTls) }) := by
-  unfold lift closeF
-  rcases m { w.base with trace := [] } with ⟨r, b⟩
-  dsimp only
-  split <;> rfl
+  have hb : w.broken = false := by
+    unfold WorldT.broken
+    rcases h with h | h <;> simp [h]
+  rw [lift_eq, brk_none_of_ok hb]
 
 theorem uptoClose_prefix (l : List Ev) : ∃ t, l = uptoClose l ++ t := by
   induction l with
@@ -252,7 +343,8 @@ theorem lift_mkCmd (verb : String) (arg : Option Bytes) (w : WorldT) :
   have hc : closeF w { w.base with trace := [] } = false := by
     unfold closeF
     cases w.ctlSsl <;> cases w.base.connected <;> cases w.peerAnswersCloseNotify <;> rfl
-  simp only [hc, Bool.false_eq_true, if_false, List.map_nil, List.append_nil]
+  have hb : brk w [] = none := brk_none_of_writes rfl
+  simp only [hb, hc, Bool.false_eq_true, if_false, List.map_nil, List.append_nil]
 
 theorem mkCmd_all {p : Ev → Prop} (verb : String) (arg : Option Bytes) : AllP p (mkCmd verb arg) := by
   unfold mkCmd; allp
@@ -580,20 +672,29 @@ theorem SatT.emitT {e : EvT} {w : WorldT} {Q : Res Unit → WorldT → List EvT 
 
 theorem SatT.lift {α} {m : M α} {w : WorldT} {Q : Res α → WorldT → List EvT → Prop}
     (h : SatP m { w.base with trace := [] } (fun r b' evs =>
-      (closeF w b' = false →
+      (∀ pre cmd, brk w evs = some (pre, cmd) →
+        Q .throw { w with trace := w.trace ++ (pre ++ [Ev.ctlWriteFail cmd]).map (EvT.ev w.ctlTls) }
+          ((pre ++ [Ev.ctlWriteFail cmd]).map (EvT.ev w.ctlTls))) ∧
+      (brk w evs = none → closeF w b' = false →
         Q r { w with base := { b' with trace := w.base.trace }, trace := w.trace ++ evs.map (EvT.ev w.ctlTls) }
           (evs.map (EvT.ev w.ctlTls))) ∧
-      (closeF w b' = true →
+      (brk w evs = none → closeF w b' = true →
         Q .throw { w with base := { b' with trace := w.base.trace },
                           trace := w.trace ++ (uptoClose evs).map (EvT.ev w.ctlTls) }
           ((uptoClose evs).map (EvT.ev w.ctlTls))))) : SatT (lift m) w Q := by
-  obtain ⟨evs, h1, h2, h3⟩ := h
+  obtain ⟨evs, h1, h0, h2, h3⟩ := h
   simp only [List.nil_append] at h1
   rw [SatT, lift_eq]
   rw [h1]
-  cases hc : closeF w (m { w.base with trace := [] }).2 with
-  | false => exact ⟨evs.map (EvT.ev w.ctlTls), rfl, h2 hc⟩
-  | true => exact ⟨(uptoClose evs).map (EvT.ev w.ctlTls), rfl, h3 hc⟩
+  cases hb : brk w evs with
+  | some x =>
+    obtain ⟨pre, cmd⟩ := x
+    exact ⟨(pre ++ [Ev.ctlWriteFail cmd]).map (EvT.ev w.ctlTls), rfl, h0 pre cmd hb⟩
+  | none =>
+    dsimp only
+    cases hc : closeF w (m { w.base with trace := [] }).2 with
+    | false => exact ⟨evs.map (EvT.ev w.ctlTls), rfl, h2 hb hc⟩
+    | true => exact ⟨(uptoClose evs).map (EvT.ev w.ctlTls), rfl, h3 hb hc⟩
 
 theorem SatT.scopedT {α} {body : MT α} {cleanup : MT Unit} {w : WorldT} {Q : Res α → WorldT → List EvT → Prop}
     (h : SatT body w (fun r w1 e1 => SatT cleanup w1 (fun rc w2 e2 =>
@@ -638,13 +739,43 @@ theorem allT_modifyT {p : Bool × Bool × Bool → EvT → Prop} {f : WorldT →
 theorem allT_emitT {p : Bool × Bool × Bool → EvT → Prop} {e : EvT} (h : ∀ k, p k e) : AllT p (emitT e) :=
   fun w => SatT.emitT ⟨rfl, by simpa using h _⟩
 
+theorem mem_brk {w : WorldT} {evs pre : List Ev} {c : Bytes} (h : brk w evs = some (pre, c)) {e : Ev} (he : e ∈ pre) :
+    e ∈ evs := by
+  obtain ⟨_, _, post, rfl⟩ := brk_some h
+  exact List.mem_append_left _ he
+
+/-- a lifted program: the events of the plain run - or, when the session is broken, those before its first command
+    write and the failed write -/
 theorem allT_lift {α} {p : Bool × Bool × Bool → EvT → Prop} {q : Ev → Prop} {m : M α} (h : AllP q m)
-    (hpq : ∀ k e, q e → p k (EvT.ev k.2.2 e)) : AllT p (lift m) := by
+    (hpq : ∀ k e, q e → p k (EvT.ev k.2.2 e)) (hfail : ∀ k c, p k (EvT.ev k.2.2 (Ev.ctlWriteFail c))) :
+    AllT p (lift m) := by
   intro w
   apply SatT.lift
   apply (h _).mono
   intro r b' evs he
-  refine ⟨fun _ => ⟨rfl, ?_⟩, fun _ => ⟨rfl, ?_⟩⟩
+  refine ⟨fun pre cmd hb => ⟨rfl, ?_⟩, fun _ _ => ⟨rfl, ?_⟩, fun _ _ => ⟨rfl, ?_⟩⟩
+  · intro e hm
+    obtain ⟨e0, h0, rfl⟩ := List.mem_map.1 hm
+    rcases List.mem_append.1 h0 with h0 | h0
+    · exact hpq (cfg w) e0 (he e0 (mem_brk hb h0))
+    · rw [List.mem_singleton.1 h0]; exact hfail (cfg w) cmd
+  · intro e hm
+    obtain ⟨e0, h0, rfl⟩ := List.mem_map.1 hm
+    exact hpq (cfg w) e0 (he e0 h0)
+  · intro e hm
+    obtain ⟨e0, h0, rfl⟩ := List.mem_map.1 hm
+    exact hpq (cfg w) e0 (he e0 (mem_uptoClose h0))
+
+/-- a lifted program that writes no command: the events of the plain run -/
+theorem allT_lift_nw {α} {p : Bool × Bool × Bool → EvT → Prop} {q : Ev → Prop} {m : M α} (h : AllP q m)
+    (hw : ∀ e, q e → isWrite e = false) (hpq : ∀ k e, q e → p k (EvT.ev k.2.2 e)) : AllT p (lift m) := by
+  intro w
+  apply SatT.lift
+  apply (h _).mono
+  intro r b' evs he
+  have hn : brk w evs = none := brk_none_of_writes (writes_nil_of_all fun e hm => hw e (he e hm))
+  refine ⟨fun pre cmd hb => ?_, fun _ _ => ⟨rfl, ?_⟩, fun _ _ => ⟨rfl, ?_⟩⟩
+  · rw [hn] at hb; cases hb
   · intro e hm
     obtain ⟨e0, h0, rfl⟩ := List.mem_map.1 hm
     exact hpq (cfg w) e0 (he e0 h0)
@@ -725,13 +856,13 @@ theorem q3_np {k e} (h : Q3 k e) : payloadT e = false := by
   simpa using h0
 
 theorem q3_lift {α} {m : M α} (h : AllP NP m) : AllT Q3 (lift m) :=
-  allT_lift h fun _ e he => ⟨e, rfl, he⟩
+  allT_lift h (fun _ e he => ⟨e, rfl, he⟩) (fun _ _ => ⟨_, rfl, rfl⟩)
 
 theorem q2_lift {α} {p : Ev → Prop} {m : M α} (h : AllP p m) : AllT Q2 (lift m) :=
-  allT_lift h fun _ _ _ => ⟨rfl, rfl⟩
+  allT_lift h (fun _ _ _ => ⟨rfl, rfl⟩) (fun _ _ => ⟨rfl, rfl⟩)
 
 theorem tag_lift {α} {p : Ev → Prop} {m : M α} (h : AllP p m) : AllT TagOk (lift m) :=
-  allT_lift h fun _ _ _ => rfl
+  allT_lift h (fun _ _ _ => rfl) (fun _ _ => rfl)
 
 macro "allt_step" : tactic => `(tactic| first
   | exact allT_pure _
@@ -899,7 +1030,7 @@ theorem nonneg_lt (rep : Reply) (h1 : rep.isNegative = false) (h2 : rep.code ≤
   omega
 
 theorem cfg_lift {α} (m : M α) (w : WorldT) : cfg (lift m w).2 = cfg w := by
-  rw [lift_eq]; rfl
+  rw [lift_eq]; split <;> rfl
 
 theorem writes_uptoClose {evs : List Ev} {x : Bytes} (h : writes evs = [] ∨ writes evs = [x]) :
     writes (uptoClose evs) = [] ∨ writes (uptoClose evs) = [x] := by
@@ -932,7 +1063,15 @@ theorem pciT_spec (cmd : Bytes) (rs : Replies) (w : WorldT) :
   apply SatT.lift
   apply (processCommandInto_spec cmd rs _).mono
   intro r b' evs h
-  exact ⟨fun _ => ⟨rfl, evs, rfl, h⟩, fun _ => ⟨rfl, uptoClose evs, rfl, pciPost_uptoClose h⟩⟩
+  refine ⟨fun pre c hb => ⟨rfl, pre ++ [Ev.ctlWriteFail c], rfl, ?_⟩, fun _ _ => ⟨rfl, evs, rfl, h⟩,
+    fun _ _ => ⟨rfl, uptoClose evs, rfl, pciPost_uptoClose h⟩⟩
+  -- the session is broken: the exchange stops at the write, which does not take place
+  obtain ⟨_, hwp, _⟩ := brk_some hb
+  refine ⟨fun e he => ?_, Or.inl ?_⟩
+  · rcases List.mem_append.1 he with he | he
+    · exact h.1 e (mem_brk hb he)
+    · rw [List.mem_singleton.1 he]; rfl
+  · rw [writes_append, hwp]; rfl
 
 theorem noHs_map (t : Bool) (evs : List Ev) : NoHs (evs.map (EvT.ev t)) := by
   intro e he
@@ -1153,7 +1292,8 @@ theorem processActiveT_ok (eprt : Bool) (cmd : Bytes) (rs : Replies) : CreateOK 
     split
     · exact createOK_pure_false _
     · refine createOK_final _ _ (lift dataAccept) _ ?_ (fun rep rs' h => ?_) (fun rep rs' h => ?_)
-      · exact allT_lift dataAccept_nk fun _ e he => ⟨e, rfl, he⟩
+      · exact allT_lift_nw dataAccept_nk (fun e he => by cases e <;> first | rfl | (simp [NK, keep] at he))
+          (fun _ e he => ⟨e, rfl, he⟩)
       · dsimp only; rw [if_neg (by simp [h])]
       · dsimp only; rw [if_pos h]; exact createOK_pure_false _
   split
@@ -1485,7 +1625,9 @@ theorem lift_npw {α} {m : M α} (h : AllP NPW m) (w : WorldT) :
   apply SatT.lift
   apply (h _).mono
   intro r b' evs he
-  refine ⟨fun _ => ⟨rfl, rfl, allEv_map _ _, ?_⟩, fun _ => ⟨rfl, rfl, allEv_map _ _, ?_⟩⟩
+  have hn : brk w evs = none := brk_none_of_writes (writes_nil_of_all fun e hm => (he e hm).2)
+  refine ⟨fun pre c hb => ?_, fun _ _ => ⟨rfl, rfl, allEv_map _ _, ?_⟩, fun _ _ => ⟨rfl, rfl, allEv_map _ _, ?_⟩⟩
+  · rw [hn] at hb; cases hb
   · rw [allWrites_map]
     exact writes_nil_of_all fun e hm => (he e hm).2
   · rw [allWrites_map]
@@ -1714,5 +1856,252 @@ theorem connPost_protects {r : Res Replies} {w' : WorldT} {evs : List EvT} (h : 
     · rcases List.mem_singleton.1 h1 with h2
       cases h2
   · exact hl
+
+/-! ### a session whose handshake failed: nothing is written any more -/
+
+/-- the control socket has an SSL layer whose handshake did not complete -/
+def Broken (w : WorldT) : Prop := w.ctlSsl = true ∧ w.ctlTls = false
+
+theorem broken_iff (w : WorldT) : w.broken = true ↔ Broken w := by
+  unfold WorldT.broken Broken
+  cases w.ctlSsl <;> cases w.ctlTls <;> simp
+
+/-- started in a broken session, `m` leaves it broken and records no command write -/
+def AllB {α} (m : MT α) : Prop :=
+  ∀ w, Broken w → SatT m w (fun _ w' evs => Broken w' ∧ allWrites evs = [])
+
+/-- started in a broken session, `m` records no command write -/
+def NoWB {α} (m : MT α) : Prop :=
+  ∀ w, Broken w → SatT m w (fun _ _ evs => allWrites evs = [])
+
+theorem allB_noWB {α} {m : MT α} (h : AllB m) : NoWB m := fun w hw => (h w hw).mono fun _ _ _ hq => hq.2
+
+theorem allB_pure {α} (a : α) : AllB (pure a : MT α) := fun _ hw => SatT.pure ⟨hw, rfl⟩
+theorem allB_throwT {α} : AllB (throwT : MT α) := fun _ hw => SatT.throwT ⟨hw, rfl⟩
+theorem allB_getT : AllB getT := fun _ hw => SatT.getT ⟨hw, rfl⟩
+
+theorem allB_modifyT {f : WorldT → WorldT}
+    (hf : ∀ w, (f w).trace = w.trace ∧ (f w).ctlSsl = w.ctlSsl ∧ (f w).ctlTls = w.ctlTls) : AllB (modifyT f) :=
+  fun w hw => SatT.modifyT (hf w).1 ⟨⟨(hf w).2.1.trans hw.1, (hf w).2.2.trans hw.2⟩, rfl⟩
+
+theorem allB_emitT {e : EvT} (h : allWrites [e] = []) : AllB (emitT e) :=
+  fun _ hw => SatT.emitT ⟨hw, h⟩
+
+theorem satP_nil {α} (m : M α) (b : World) (hb : b.trace = []) : SatP m b (fun _ _ _ => True) :=
+  ⟨(m b).2.trace, by rw [hb]; rfl, trivial⟩
+
+/-- whatever the plain program: lifted in a broken session it records no command write (it stops at its first one) -/
+theorem allB_lift {α} (m : M α) : AllB (lift m) := by
+  intro w hw
+  have hbk : w.broken = true := (broken_iff w).2 hw
+  apply SatT.lift
+  apply (satP_nil m _ rfl).mono
+  intro r b' evs _
+  refine ⟨fun pre c hb => ⟨hw, ?_⟩, fun hn _ => ⟨hw, ?_⟩, fun hn _ => ⟨hw, ?_⟩⟩
+  · rw [allWrites_map, writes_append, (brk_some hb).2.1]; rfl
+  · rw [allWrites_map]; exact brk_none_writes hbk hn
+  · rw [allWrites_map]
+    have h0 := brk_none_writes hbk hn
+    obtain ⟨t, ht⟩ := uptoClose_prefix evs
+    rw [ht, writes_append] at h0
+    exact (List.append_eq_nil_iff.1 h0).1
+
+theorem allB_bind {α β} {m : MT α} {f : α → MT β} (h1 : AllB m) (h2 : ∀ a, AllB (f a)) : AllB (m >>= f) := by
+  intro w hw
+  apply SatT.bind
+  apply (h1 w hw).mono
+  intro r w1 e1 ⟨hb1, he1⟩
+  cases r with
+  | throw => exact ⟨hb1, he1⟩
+  | ok a =>
+    apply (h2 a w1 hb1).mono
+    intro _ w2 e2 ⟨hb2, he2⟩
+    exact ⟨hb2, by rw [allWrites_append, he1, he2]; rfl⟩
+
+theorem noWB_bind {α β} {m : MT α} {f : α → MT β} (h1 : AllB m) (h2 : ∀ a, NoWB (f a)) : NoWB (m >>= f) := by
+  intro w hw
+  apply SatT.bind
+  apply (h1 w hw).mono
+  intro r w1 e1 ⟨hb1, he1⟩
+  cases r with
+  | throw => exact he1
+  | ok a =>
+    apply (h2 a w1 hb1).mono
+    intro _ w2 e2 he2
+    rw [allWrites_append, he1, he2]; rfl
+
+theorem allB_scopedT {α} {body : MT α} {cleanup : MT Unit} (h1 : AllB body) (h2 : AllB cleanup) :
+    AllB (scopedT body cleanup) := by
+  intro w hw
+  apply SatT.scopedT
+  apply (h1 w hw).mono
+  intro r w1 e1 ⟨hb1, he1⟩
+  apply (h2 w1 hb1).mono
+  intro _ w2 e2 ⟨hb2, he2⟩
+  exact ⟨hb2, by rw [allWrites_append, he1, he2]; rfl⟩
+
+macro "allb_step" : tactic => `(tactic| first
+  | exact allB_pure _
+  | exact allB_throwT
+  | exact allB_getT
+  | exact allB_lift _
+  | assumption
+  | (apply allB_modifyT; intro _; exact ⟨rfl, rfl, rfl⟩)
+  | (apply allB_emitT; rfl)
+  | (refine allB_bind ?_ (fun _ => ?_))
+  | (refine allB_scopedT ?_ ?_)
+  | split
+  | dsimp only)
+
+syntax "allb" ("[" term,* "]")? : tactic
+macro_rules
+  | `(tactic| allb) => `(tactic| repeat allb_step)
+  | `(tactic| allb [$ts,*]) => do
+    let alts ← ts.getElems.mapM fun t => `(tactic| with_reducible apply $t)
+    `(tactic| repeat (first $[| $alts:tactic]* | allb_step))
+
+theorem allB_discard {α} {m : MT α} (h : AllB m) : AllB (do let _ ← m; pure ()) :=
+  allB_bind h fun _ => allB_pure _
+
+theorem pciT_b (cmd : Bytes) (rs : Replies) : AllB (processCommandIntoT cmd rs) := allB_lift _
+
+theorem processLoginT_b (u p : Bytes) (rs : Replies) : AllB (processLoginT u p rs) := by
+  unfold processLoginT
+  allb [pciT_b]
+
+theorem loginT_b (u p : Bytes) : AllB (loginT u p) := by
+  unfold loginT
+  allb [processLoginT_b]
+
+theorem dataHandshake_b : AllB dataHandshake := by
+  unfold dataHandshake nextHandshake
+  allb
+
+theorem dataDisconnectT_b (g : Bool) : AllB (dataDisconnectT g) := by
+  unfold dataDisconnectT
+  allb
+
+theorem cleanupT_b : AllB cleanupT := by
+  unfold cleanupT
+  allb
+
+theorem finishTransferT_b (rs : Replies) : AllB (finishTransferT rs) := by
+  unfold finishTransferT
+  allb [dataDisconnectT_b]
+
+theorem processEpsvT_b (cmd : Bytes) (rs : Replies) : AllB (processEpsvT cmd rs) := by
+  unfold processEpsvT
+  allb [pciT_b, dataHandshake_b]
+
+theorem processPasvT_b (cmd : Bytes) (rs : Replies) : AllB (processPasvT cmd rs) := by
+  unfold processPasvT
+  allb [pciT_b, dataHandshake_b]
+
+theorem processActiveT_b (eprt : Bool) (cmd : Bytes) (rs : Replies) : AllB (processActiveT eprt cmd rs) := by
+  unfold processActiveT
+  allb [pciT_b, dataHandshake_b]
+
+theorem createDataConnectionT_b (cmd : Bytes) (rs : Replies) : AllB (createDataConnectionT cmd rs) := by
+  unfold createDataConnectionT
+  allb [processEpsvT_b, processPasvT_b, processActiveT_b]
+
+theorem downloadT_b (path : Bytes) : AllB (downloadT path) := by
+  unfold downloadT
+  allb [createDataConnectionT_b, cleanupT_b, finishTransferT_b]
+
+theorem uploadT_b (verb : String) (path : Bytes) : AllB (uploadT verb path) := by
+  unfold uploadT
+  allb [createDataConnectionT_b, cleanupT_b, finishTransferT_b]
+
+theorem fileListT_b (path : Option Bytes) (names : Bool) : AllB (fileListT path names) := by
+  unfold fileListT
+  allb [createDataConnectionT_b, cleanupT_b, dataDisconnectT_b]
+
+/-- the close of the control connection (the answer of the peer to the close-notify is looked at afterwards) -/
+theorem closeLift_b : AllB (fun w' : WorldT =>
+    ((lift ctlClose) { w' with peerAnswersCloseNotify := true }).map id
+      (fun x => { x with peerAnswersCloseNotify := w'.peerAnswersCloseNotify })) := by
+  intro w hw
+  obtain ⟨evs, h1, h2, h3⟩ := allB_lift ctlClose { w with peerAnswersCloseNotify := true } hw
+  exact ⟨evs, h1, h2, h3⟩
+
+theorem ctlCloseT_b : AllB ctlCloseT := by
+  unfold ctlCloseT
+  allb [closeLift_b]
+
+/-- `disconnect` of a broken session records no command write: QUIT is not sent -/
+theorem disconnectT_nw (graceful : Bool) : NoWB (disconnectT graceful) := by
+  have fin : ∀ (f : WorldT → WorldT) (r : Option Reply), (∀ w, (f w).trace = w.trace) →
+      NoWB (modifyT f >>= fun _ => pure r) := by
+    intro f r hf w _
+    apply SatT.bind; apply SatT.modifyT (hf w); dsimp only; apply SatT.pure; rfl
+  unfold disconnectT
+  repeat (first
+    | exact fin _ _ (fun _ => rfl)
+    | refine noWB_bind (by allb [ctlCloseT_b]) (fun _ => ?_)
+    | split
+    | dsimp only)
+
+/-- a command / reply exchange either throws or writes its command -/
+theorem processCommand_writes (cmd : Bytes) (b : World) :
+    SatP (processCommand cmd) b (fun r _ evs => r = .throw ∨ writes evs ≠ []) := by
+  unfold processCommand
+  apply SatP.bind
+  apply (ctlSend_spec cmd b).mono
+  intro r b1 e1 ⟨_, hw⟩
+  cases r with
+  | throw => exact Or.inl rfl
+  | ok u =>
+    dsimp only at hw ⊢
+    apply (ctlRecv_npw b1).mono
+    intro _ _ e2 _
+    exact Or.inr (by rw [writes_append, hw]; simp)
+
+/-- in a broken session a lifted program that cannot complete without a command write throws -/
+theorem lift_broken_throws {α} {m : M α} {w : WorldT} (hw : Broken w)
+    (h : SatP m { w.base with trace := [] } (fun r _ evs => r = .throw ∨ writes evs ≠ [])) :
+    (lift m w).1 = .throw := by
+  obtain ⟨evs, h1, h2⟩ := h
+  simp only [List.nil_append] at h1
+  rw [lift_eq, h1]
+  cases hb : brk w evs with
+  | some x => rfl
+  | none =>
+    dsimp only
+    have := brk_none_writes ((broken_iff w).2 hw) hb
+    rcases h2 with h2 | h2
+    · rw [h2]; split <;> rfl
+    · exact absurd this h2
+
+theorem bindT_throw {α β} {m : MT α} {f : α → MT β} {w : WorldT} (h : (m w).1 = .throw) :
+    (m >>= f) w = (.throw, (m w).2) := by
+  rw [bindT_eq]
+  rcases hm : m w with ⟨r, w1⟩
+  rw [hm] at h
+  cases r with
+  | ok a => cases h
+  | throw => rfl
+
+/-- the graceful `disconnect` of a broken session: the exchange of QUIT throws at the write, and so does the call -
+    the connection is not closed and the SSL layer stays in place -/
+theorem disconnectT_broken (w : WorldT) (hw : Broken w) :
+    (disconnectT true w).1 = .throw ∧ Broken (disconnectT true w).2 := by
+  have hq : (lift (do let c ← mkCmd "QUIT" none; processCommand c) w).1 = .throw := by
+    apply lift_broken_throws hw
+    apply SatP.bind
+    refine ⟨[], by rw [mkCmd_eq]; simp, ?_⟩
+    rw [mkCmd_eq]
+    split
+    · simp only [List.nil_append]; exact processCommand_writes _ _
+    · exact Or.inl rfl
+  have hb := (allB_lift (do let c ← mkCmd "QUIT" none; processCommand c) w hw).added.1
+  have he : disconnectT true w = (Res.throw, (lift (do let c ← mkCmd "QUIT" none; processCommand c) w).2) := by
+    have h1 : ((lift (do let c ← mkCmd "QUIT" none; processCommand c) >>= fun r => (pure (some r) : MT (Option Reply))) w).1
+        = .throw := by rw [bindT_throw hq]
+    unfold disconnectT
+    dsimp only
+    rw [if_pos rfl, bindT_throw h1, bindT_throw hq]
+  rw [he]
+  exact ⟨rfl, hb⟩
 
 end Ftp.ClientTls.L
